@@ -71,7 +71,7 @@ type caseIn struct {
 }
 
 type caseOut struct {
-	Variant   [5]int      `json:"variant"` // guard, refresh_idx, hb, ptr, cas (probed on the real code)
+	Variant   [6]int      `json:"variant"` // guard, refresh_idx, hb, ptr, cas, scas (probed on the real code)
 	Obs       [][][][3]int `json:"obs"`     // per op, per node, per client: kind(0 absent,1 found,2 error), node, conn
 	RS        [][][][3]int `json:"rs"`      // session mode: the same for the client runtime-state record
 	Errs      []int       `json:"errs"`    // per op: the call returned an error
@@ -629,11 +629,16 @@ func (g *ghost) checkState(o []int, clients []int, rs [][][3]int) (string, strin
 // ---------------------------------------------------------------------------------------------
 // one history
 // ---------------------------------------------------------------------------------------------
-var variant [5]int
+var variant [6]int
 
 func runCase(raw json.RawMessage) interface{} {
 	var c caseIn
 	must(json.Unmarshal(raw, &c))
+	if c.Mode == "realauth" {
+		var ri realIn
+		must(json.Unmarshal(raw, &ri))
+		return runRealAuth(ri)
+	}
 	if c.Mode == "conc" {
 		var cc concIn
 		must(json.Unmarshal(raw, &cc))
@@ -735,8 +740,8 @@ func runCase(raw json.RawMessage) interface{} {
 // ---------------------------------------------------------------------------------------------
 // which of the three repairs does the tree under test contain?  (probed on the real code, no clock involved)
 // ---------------------------------------------------------------------------------------------
-func probeVariant() [5]int {
-	var v [5]int
+func probeVariant() [6]int {
+	var v [6]int
 	ttl := 300 * time.Millisecond
 	// ptr: memory backend hands back the stored *Info
 	{
@@ -788,6 +793,22 @@ func probeVariant() [5]int {
 // cas: is the index test-and-write of UnregisterConnection / RefreshConnection one atomic storage call?  Probed by replaying
 // the two window schedules through the gated double, per backend (a tiered storage may lack CompareAndSwap): the new registration must survive both.
 var casByBackend = map[string]int{}
+var scasByBackend = map[string]int{}
+
+// scas: does the client-state service close its two read-modify-write windows (atomic touch / matched delete)?  Probed per
+// backend by replaying the two window schedules on the real service: the new login must survive both.
+func probeStateCAS(backend string) int {
+	old := [][]int{{thStConnect, 1, 1, 7}}
+	a := runConc(concIn{Backend: backend, Nodes: 2, Clients: []int{7}, Setup: old,
+		Threads: [][]int{{thStDisc, 1, 1, 7}, {thStConnect, 2, 2, 7}}, Sched: []int{0, 1, 1, 0}})
+	b := runConc(concIn{Backend: backend, Nodes: 2, Clients: []int{7}, Setup: old,
+		Threads: [][]int{{thStEnsure, 1, 1, 7}, {thStConnect, 2, 2, 7}}, Sched: []int{0, 1, 1, 0}})
+	ok := func(o *concOut) bool { return len(o.FinalRS) > 0 && o.FinalRS[0][0] == [3]int{1, 2, 2} }
+	if ok(a) && ok(b) {
+		return 1
+	}
+	return 0
+}
 
 func probeCAS(backend string) int {
 	old := [][]int{{opSReg, 1, 1, 7, 1}}
@@ -934,8 +955,10 @@ func main() {
 	variant = probeVariant()
 	for _, be := range []string{"memory", "redis", "hybrid-redis", "hybrid-shared-mem", "hybrid-mem"} {
 		casByBackend[be] = probeCAS(be)
+		scasByBackend[be] = probeStateCAS(be)
 	}
 	variant[4] = casByBackend["memory"]
+	variant[5] = scasByBackend["memory"]
 	for k := 0; k < nShapes; k++ {
 		shapeIsControl[k] = probeShape(k).control
 	}
